@@ -69,3 +69,33 @@ Example refinement_nonvacuous :
   refine_compare_left (IV (-128) 127) 5 "slt" false = Ok (Some (IV 5 127)) /\
   refine_iszero_false (IV 0 7) = Ok (Some (IV 1 7)).
 Proof. repeat split; reflexivity. Qed.
+
+(* eq refinement, both operands variables (variable_range/analysis.py:_apply_eq/_eq_range) *)
+Theorem range_eq_refinement_sound : forall A B a R,
+  wf A -> wf B -> 0 <= a < W -> mem a A -> mem a B ->
+  refine_eq_vars A B = Ok (Some R) -> mem a R /\ wf R.
+Proof. exact refine_eq_vars_sound. Qed.
+Print Assumptions range_eq_refinement_sound.
+
+(* the representation guard is necessary: intersecting the bounds of a signed-form and an unsigned-form range loses the
+   word 2^256-2 (= -2), which both denote.  This was the behaviour of /repo before the fix (replayed end to end: a
+   `slt %a, 0` folded to 0 on a path where %a = -2). *)
+Theorem range_eq_intersect_unguarded_refuted :
+  exists A B a, wf A /\ wf B /\ 0 <= a < W /\ mem a A /\ mem a B /\ ~ mem a (vr_intersect A B).
+Proof.
+  exists (IV (-128) 127), (IV 0 (W - 2)), (W - 2).
+  unfold wf, mem. cbn [vr_intersect]. unfold vr_iv.
+  repeat split; try (rewrite ?RangeSound.W_val, ?RangeSound.HALF_val; lia).
+  - exists (-2). split; [lia | reflexivity].
+  - exists (W - 2). split; [rewrite RangeSound.W_val; lia | reflexivity].
+  - replace (Z.max (-128) 0 >? Z.min 127 (W - 2)) with false by reflexivity.
+    intros [v [Hv E]]. replace (Z.max (-128) 0) with 0 in Hv by reflexivity. replace (Z.min 127 (W - 2)) with 127 in Hv by reflexivity.
+    rewrite Z.mod_small in E by (rewrite RangeSound.W_val; lia). rewrite RangeSound.W_val in E. lia.
+Qed.
+Print Assumptions range_eq_intersect_unguarded_refuted.
+
+Example eq_refinement_nonvacuous :
+  refine_eq_vars (IV 0 255) (IV 10 1000) = Ok (Some (IV 10 255)) /\
+  refine_eq_vars (IV (-128) 127) (IV (-5) 5) = Ok (Some (IV (-5) 5)) /\
+  refine_eq_vars (IV (-128) 127) (IV 0 (W - 2)) = Ok None.
+Proof. repeat split; reflexivity. Qed.
